@@ -14,7 +14,7 @@
 import ast
 from typing import List, Tuple, get_args
 
-from sympy import Symbol
+from sympy import Symbol, sympify
 from sympy.logic import ITE, And, Not, Or, Xor, false, true
 
 from ..boolquant import QuantumBooleanGate
@@ -396,9 +396,13 @@ def translate_expression(expr, env: Env) -> TExp:  # noqa: C901
                 else:
                     subs[fa.name] = a[1]
 
+            # The replacement has to be simultaneous (subs is sequential, and its simultaneous
+            # mode does not work on boolean expressions)
+            subs_sym = {Symbol(k): sympify(v) for k, v in subs.items()}
+
             n_exps = []
             for s, e in def_f[3]:
-                n_exps.append((s, e.subs(subs, simultaneus=True)))
+                n_exps.append((s, e.xreplace(subs_sym)))
 
             _ret = list(map(lambda se: se[1], n_exps))
 
